@@ -194,6 +194,35 @@ for tp in S.SPIKE:
                     if q.count('M') >= 2]
             check(bool(pats) and pats[0] in want[S.SPIKE[tp][3]], f'{tp} corner {sx, sy, sa, ss} conn {conn}: first separating level shows {pats[:1]}')
 
+# ---- the labels= alphabets: ordered lists; every numbering gets a non-ascending list whose order is neither the
+# ascending nor (for >= 3 labels) only the descending one; no repeated label; representations build what they say
+from mcphot.props import c06  # noqa: E402
+
+for tier in ('quick', 'thorough'):
+    for numb in ('consec', 'gaps', 'reversed', 'gaprev'):
+        for n in (1, 2, 3, 4, 5):
+            labs = S.numbering(numb, n)
+            for name, alpha in (('sched', c06.sched_subsets(labs, tier)), ('refine', c06.subsets(labs, tier)),
+                                ('repr', c06.repr_subsets(labs))):
+                lists = [x for x, _ in alpha if isinstance(x, list)]
+                check(all(len(set(x)) == len(x) and set(x) <= set(labs) for x in lists), f'{name} {numb} {n}: bad list')
+                if n >= 2:
+                    check(any(x == sorted(x, reverse=True) for x in lists), f'{name} {numb} {n}: no descending list')
+                if n >= 3 and name != 'repr':
+                    check(any(x != sorted(x) and x != sorted(x, reverse=True) for x in lists),
+                          f'{name} {numb} {n}: no non-monotone list')
+            check(len(c06.sched_subsets(labs, tier)) == len(c06.sched_subsets(S.numbering('consec', n), tier)),
+                  'schedule alphabet size depends on the numbering')
+            if n == 3:
+                full = [tuple(x) for x, _ in c06.subsets(labs, tier) if isinstance(x, list) and len(x) == 3]
+                check(sorted(full) == sorted(itertools.permutations(sorted(labs))), f'refine {numb}: not all 3! orders')
+a = c06.labels_arg([3, 1, 2], 'array32')
+check(isinstance(a, np.ndarray) and a.dtype == np.int32 and a.tolist() == [3, 1, 2], 'labels_arg array32')
+check(c06.labels_arg([3, 1], 'tuple') == (3, 1) and c06.labels_arg([3, 1], None) == [3, 1], 'labels_arg tuple/list')
+check(isinstance(c06.labels_arg(4, 'npint'), np.integer) and c06.labels_arg(4, 'list1') == [4] and c06.labels_arg(4, None) == 4
+      and c06.labels_arg(None, 'array') is None, 'labels_arg scalar')
+check(c06._unsorted([2, 1]) and not c06._unsorted([1, 2]) and not c06._unsorted(3) and not c06._unsorted(None), '_unsorted')
+
 if fails:
     print('FAILED:', *fails, sep='\n  ')
     sys.exit(1)
